@@ -117,13 +117,7 @@ def rule_declarations(ctx):
     v = sym.Eval(fx, inline_depth=0).function(st)
     arms = {a[0]: a[-1] for a in v[2]} if v[0] == "match" else {}
     ctx.add("COLLECT", "leaf:symbol", "SymbolicTerm::Symbol(_)" in arms and "IndexSet::new" not in repr(arms["SymbolicTerm::Symbol(_)"]), ctx.site(st), "a Symbol contributes its name")
-    for adt, sort in (("GeneralTerm", "General"), ("IntegerTerm", "Integer"), ("SymbolicTerm", "Symbol")):
-        bb = fx.fn("sigma_0::%s::function_constants" % adt)
-        v = sym.Eval(fx, inline_depth=0).function(bb)
-        arms = {a[0]: a[-1] for a in v[2]} if v[0] == "match" else {}
-        a = arms.get("%s::FunctionConstant(_)" % adt)
-        ok = a is not None and "('sort', ('ctor', 'Sort::%s', ()))" % sort in repr(a) and "FunctionConstant" in repr(a)
-        ctx.add("COLLECT", "leaf:function-constant:" + adt, ok, ctx.site(bb), "a %s function constant is collected with sort %s (the sort its occurrence is printed at)" % (adt, sort))
+    collect.check_function_constant_leaves(ctx, "COLLECT", fx)
 
 
 def rule_namespaces(ctx):
@@ -284,6 +278,11 @@ def rule_one_conjecture(ctx):
     for o in sub.obls:
         if o["key"].startswith("TPL:decompose"):
             ctx.obls.append(o)
+    # the consequences of a lemma join the axioms of the later outline problems: they must carry Role::Axiom (C13's lemma templates)
+    from . import c13
+    sub = type(ctx)(ctx.prop, ctx.tier, ctx.facts)
+    c13.rule_general_lemma(sub)
+    ctx.obls.extend(sub.obls)
 
 
 def rule_pre1(ctx):
